@@ -1,7 +1,8 @@
 """C05 — read and write calls honour their count, bounds and position contract."""
 from ._handle_common import run_common
+from ..core import modules_for
 
 
 def run(ctx):
     q = ctx.tier == "quick"
-    run_common(ctx, "C05", ["SfProps.C05"], l1_scripts=400 if q else 4000, stride=3 if q else 1, nops=25 if q else 60)
+    run_common(ctx, "C05", modules_for("C05"), l1_scripts=400 if q else 4000, stride=3 if q else 1, nops=25 if q else 60)
